@@ -66,7 +66,7 @@ def gen_plan(rng, tier, run):
             "restart": mode == "json" and rng.random() < 0.25}
     if rng.random() < 0.25:
         plan["opts"].append("-P")
-    n = rng.randint(1, 4) if mode == "json" else 1
+    n = rng.randint(1, 4) if mode == "json" else (2 if rng.random() < 0.15 else 1)   # file mode: -f may be given twice
     ext = rng.choice([None, None, ".pel"]) if mode == "json" else None
     plan["ext"] = ext
     plan["out"] = rng.choice(["sep", "sep", "same"]) if mode == "json" else None
@@ -134,7 +134,10 @@ def argv_of(plan):
         if plan.get("ext"):
             a += ["-e", plan["ext"]]
     else:
-        a = ["-f", "@/D/" + plan["files"][0]["name"], "-c"]
+        a = []
+        for f in plan["files"][1:]:
+            a += ["-f", "@/D/" + f["name"]]          # an earlier -f (argparse keeps the last one)
+        a += ["-f", "@/D/" + plan["files"][0]["name"], "-c"]
     return a + list(plan["opts"])
 
 
@@ -266,7 +269,9 @@ def check_state(plan, w, originals, ref_outputs, ref_stdout, res, snap, faults, 
                                  json.dumps(faults), argv_of(plan)),
                              "faults": faults})
         else:
-            complete = bool(ref_stdout) and res.stdout_delivered == ref_stdout
+            own = ref_outputs.get(name) or ""
+            complete = bool(own) and own in res.stdout_delivered       # this input's own complete document reached the sink
+            ref_stdout = own
             if not complete:
                 role = "selected" if ref_stdout else ("junk" if name in plan["_junk"] else "filtered")
                 vios.append({"class": "input-removed-without-complete-output",
@@ -315,6 +320,15 @@ def execute(plan):
             if len(outs) == 1:
                 ref_outputs[name] = next(iter(outs.values()))
         ref_stdout = ref0.stdout_delivered if plan["mode"] == "file" else None
+        if plan["mode"] == "file":
+            # what "the document printed for that same file" is: -f on that file alone, without --clean
+            for f in plan["files"]:
+                materialise(w, dict(plan, files=[dict(x, pre_out=None) for x in plan["files"]]), originals)
+                rr = w.run(["-f", "@/D/" + f["name"]] + list(plan["opts"]), stdout_bufsize=plan["stdout_bufsize"],
+                           stdout_closed=bool(plan.get("stdout_closed")))
+                ref_outputs[f["name"]] = rr.stdout_delivered
+            if len(plan["files"]) > 1:
+                bump("file_mode_two_inputs")
         if any(("D/" + n) not in ref0_snap for n in originals):
             vio0 = {"class": "removed-without-clean", "key": "C12:%s:removed-without-clean" % plan["mode"],
                     "detail": "an input disappeared although --clean was not given: argv=%s" % ref0.argv}
@@ -330,7 +344,7 @@ def execute(plan):
             if kind == "remove" and rel and rel.startswith("D/"):
                 remove_pos[rel[2:]] = idx
         for f in plan["files"]:
-            role = "junk" if f.get("junk") else ("selected" if (f["name"] in ref_outputs or ref_stdout) else "filtered")
+            role = "junk" if f.get("junk") else ("selected" if ref_outputs.get(f["name"]) else "filtered")
             bump("role:" + role)
         v, fk, pat = check_state(plan, w, originals, ref_outputs, ref_stdout, ref, ref_snap, [], remove_pos)
         violations += v
